@@ -250,6 +250,11 @@ func (o *clientObject) toPersistent(
 	}
 
 	cli.BlockedServices = o.BlockedServices.Clone()
+	if cli.BlockedServices.Schedule == nil {
+		// The configuration file may contain blocked services without a
+		// schedule, which means that the blocking is never paused.
+		cli.BlockedServices.Schedule = schedule.EmptyWeekly()
+	}
 
 	cli.Tags = slices.Clone(o.Tags)
 
